@@ -199,8 +199,34 @@ class C14(Prop):
             out: dict[str, Any]
             try:
                 async with Context() as ctx:
-                    await start_component(root_type, config, timeout=None)
-                    pubs = [list(ctx.get_resources(inst.marker)) for inst in compmod.INSTANCES]
+                    # what the components publish (resources and resource factories alike) is read off the
+                    # resource_added events of the surrounding context
+                    seen: list[tuple[Any, str]] = []
+                    listening = anyio.Event()
+
+                    async def listen() -> None:
+                        async with ctx.resource_added.stream_events(max_queue_size=100000) as stream:
+                            listening.set()
+                            async for ev in stream:
+                                seen.append((ev.resource_types[0], ev.resource_name))
+
+                    failure: BaseException | None = None
+                    async with anyio.create_task_group() as tg:
+                        tg.start_soon(listen)
+                        await listening.wait()
+                        try:
+                            await start_component(root_type, config, timeout=None)
+                            await anyio.wait_all_tasks_blocked()
+                        except Exception as e:  # noqa: BLE001 - re-raised as itself outside the harness's task group
+                            failure = e
+                        tg.cancel_scope.cancel()
+                    if failure is not None:
+                        raise failure
+                    pubs = [[n for t, n in seen if t is inst.marker] for inst in compmod.INSTANCES]
+                    for inst, names in zip(compmod.INSTANCES, pubs):
+                        for n in names:      # … and every one of them can be looked up under that name
+                            if ctx.get_resource_nowait(inst.marker, n, optional=True) is None:
+                                names[names.index(n)] = n + "?missing"
                 out = {"status": "ok", "published": pubs}
             except ComponentStartError as e:
                 out = {"status": "err", "err": e.phase, "path": e.path, "cls": cls_ids.get(e.component_type, -1)}
@@ -217,9 +243,11 @@ class C14(Prop):
             out["log"] = [{"cls": e["cls"], "kwargs": to_cfg(e["kwargs"], cls_ids)} for e in compmod.LOG]
             return out
 
-        first = anyio.run(once)
+        from ..impl import vclock
+
+        first = vclock.run(once)
         unchanged = _deep_same(config, config0)
-        second = anyio.run(once)
+        second = vclock.run(once)
         first["config_unchanged"] = unchanged and _deep_same(config, config0)
         first["second_equal"] = (second == {k: v for k, v in first.items() if k in second})
         return first
